@@ -35,6 +35,27 @@ def dist_to_curve(p, cpts):
     return polyline_dist(p, cpts)
 
 
+def dist_to_curve_exact(p, kind, ctrl, n=64):
+    """distance from p to the Bezier curve itself (not to a sampled polyline of it): every local minimum among n+1
+    samples is refined by a ternary search on the parameter in its two neighbouring intervals"""
+    f = quad if kind == "Q" else cubic
+    d2 = lambda t: (lambda q: (q[0] - p[0]) ** 2 + (q[1] - p[1]) ** 2)(f(*ctrl, t))
+    ds = [d2(i / n) for i in range(n + 1)]
+    best = min(ds)
+    for i in range(n + 1):
+        if (i > 0 and ds[i - 1] < ds[i]) or (i < n and ds[i + 1] < ds[i]):
+            continue
+        lo, hi = max(0.0, (i - 1) / n), min(1.0, (i + 1) / n)
+        for _ in range(50):
+            a, b = lo + (hi - lo) / 3, hi - (hi - lo) / 3
+            if d2(a) < d2(b):
+                hi = b
+            else:
+                lo = a
+        best = min(best, d2(lo), d2(hi))
+    return math.sqrt(best)
+
+
 def finite(*vs):
     return all(math.isfinite(v) for v in vs)
 
